@@ -37,13 +37,17 @@ class Path:
         return p
 
 
+# budget multiplier: the thorough tier explores with larger path / step limits (set by ./check)
+SCALE = 1
+
+
 class SymEx:
     def __init__(self, fn, payload_place=None, max_paths=256, max_steps=4000, call_hook=None, facts=None):
         self.facts = facts
         self.fn = fn
         self.payload_place = payload_place  # place (local, proj) of the matched enum value
-        self.max_paths = max_paths
-        self.max_steps = max_steps
+        self.max_paths = max_paths * SCALE
+        self.max_steps = max_steps * SCALE
         self.call_hook = call_hook
         self.paths = []
         self.steps = 0
